@@ -1,4 +1,4 @@
-import DcmVerif.Props.Source
+import DcmVerif.Props.SourceMeta
 import DcmVerif.Model.Valid
 /-! C10: the validity check accepts exactly the contents that meet the format rules.
 The full-strength iff is false of the code (finding F6: the value count is not checked for a varying
